@@ -150,6 +150,8 @@ def corr_exhaustive(ck: Ck) -> None:
             # quick tier: all lengths <= 4 everywhere, length 5 on a fixed third of the (prefix, separator) combinations
             top = 5 if (full or (pi + kind) % 3 == 0) else 4
             jobs.append((prefix, kind, list(range(0, top + 1))))
+    if ck.thorough:     # six segments for plain and alternating separators, relative and absolute
+        jobs += [(prefix, kind, [6]) for prefix in ('', '/') for kind in (0, 2)]
 
     # the implementation runs here (sequentially, under the pinned cwd); the coqc processes run in parallel below
     prepared = []
@@ -202,6 +204,27 @@ def corr_exhaustive(ck: Ck) -> None:
         ck.tie_broken.append('correspondence paths (SM/PathNorm.v vs posixpath / _resolve_path / unify_path)')
         DISAGREE.setdefault('exhaustive', set()).update(m[0] for _, m in bad_blocks)
         ck.extra['path_disagreements'] = detail
+
+
+def model_predicted_escapes(ck: Ck) -> None:
+    """When the generated guard is not a sound form: let the model enumerate paths it lets out of the root, and run them
+    on the implementation (they feed the evidence; the tree search reports the violation itself)."""
+    from srctools.filesys import RawFileSystem
+    two = coq_str('2')
+    exprs = [f'firstn 4 (filter (fun p => str_eqb (verdict raise_if {coq_str(CWD)} {coq_str("/t/root")} p) {two}) '
+             f'(paths_of {coq_str(pre)} 0 alpha {n}))' for pre in ('', '/t/') for n in (1, 2, 3)]
+    vals = coq_run(ck, 'pred', exprs)
+    if vals is None:
+        return
+    from harness.common import parse_coq_nested
+    out = []
+    with fake_cwd(CWD):
+        fs = RawFileSystem('/t/root')
+        for v in vals:
+            for w in parse_coq_nested(v):
+                p = ''.join(chr(c) for c in w)
+                out.append({'root': '/t/root', 'path': p, 'implementation_resolves_to': impl_resolve(fs, p)})
+    ck.extra['model_predicted_escapes'] = out[:12]
 
 
 def locate_disagreement(ck: Ck, prefix: str, kind: int, n: int, name: str, coqf: str):
@@ -269,7 +292,7 @@ Fixpoint sl_eqb (a b : list str) : bool := match a, b with [], [] => true | x ::
         ck.extra['random_path_disagreement'] = {'path': cases[bad[0][0]], 'implementation': exp[bad[0][0]], 'model': bad[0][1],
                                                 'functions': [f[0] for f in fns]}
         DISAGREE.setdefault('random', set()).update(bad_fns)
-    ck.sample({'path': cases[25], 'functions': [f[0] for f in fns], 'implementation_results': exp[25]})
+    ck.sample({'path': cases[10], 'functions': [f[0] for f in fns], 'implementation_results': exp[10]})
 
 
 def check_casefold(ck: Ck) -> None:
@@ -281,7 +304,7 @@ def check_casefold(ck: Ck) -> None:
         f = ch.casefold()
         if (ch in special and f != ch) or (ch not in special and special & set(f)):
             bad.append(c)
-    ck.count('casefold_code_points', 0x110000)
+    ck.extra['casefold_code_points_checked'] = 0x110000
     ck.obligation('assumption:casefold_neutral_on_path_syntax', not bad,
                   f'str.casefold maps no code point to or from . / \\ ({len(bad)} exceptions {bad[:5]})')
 
@@ -423,7 +446,9 @@ def run_op(base: str, root_spec: str, chain_prefix, op: str, path_t: str) -> dic
         events = [(k, os.path.normpath(os.path.join(base, p))) for k, p in ev]
     finally:
         os.chdir(old)
-    ignore = tuple(x.rstrip('/') + '/' for x in {sys.prefix, sys.base_prefix, os.path.dirname(os.__file__)})
+    from harness.common import REPO, VERIF
+    ignore = tuple(x.rstrip('/') + '/' for x in {sys.prefix, sys.base_prefix, os.path.dirname(os.__file__),
+                                                 str(REPO), str(VERIF)})
     escapes = [(k, p) for k, p in events if not is_inside(root, p) and not p.startswith(ignore)]
     leaked = [d.strip() for d in data if d.startswith('CONTENT-OF:')
               and not is_inside(root, os.path.join(base, d.strip()[len('CONTENT-OF:'):]))]
@@ -610,12 +635,14 @@ def run(ck: Ck) -> None:
     built = ok_t and ck.build(['Props/C18.vo', 'SM/PathNormEnum.vo'])
     if built:
         ck.theorems('Props/C18.v')
-        ck.instance_obligations(IMPORTS, {
+        res = ck.instance_obligations(IMPORTS, {
             'guard_is_a_sound_segmentwise_form': 'raise_sound raise_if',
             'root_is_stored_as_abspath': 'root_is_abspath',
             'root_not_reassigned_by_the_class': 'negb root_reassigned_in_class',
             'every_fs_access_goes_through_resolve_path': 'all_access_sites_resolved',
         })
+        if not res['guard_is_a_sound_segmentwise_form']:
+            model_predicted_escapes(ck)
         if side.get('resolve_digest') not in PINNED_DIGESTS:
             # DESIGN 5.4: a changed hand-modelled function escalates the correspondence budget, it is not an alarm
             ck.notes.append('RawFileSystem._resolve_path differs from the texts the model was written against: '
